@@ -135,14 +135,42 @@ def impl(fn):
         return "err " + hlib.errkind(exc)
 
 
-def wait_until(pred, timeout: float, step: float = 0.0005) -> bool:
-    end = time.monotonic() + timeout
+# Deadlines.  Observations are taken when a logical condition holds (`wait_until(pred, …)`), never after a fixed sleep.  A deadline only ends
+# a wait for something that does not come; its expiry is read as "did not happen" (a hang, a lost frame), so it has to be out of reach of
+# machine load: the FIRST stall of a process waits `WAIT_FIRST`, whatever nominal bound the call site names; once the implementation has
+# shown that it really stalls, later stalls wait `max(nominal, WAIT_LATER)` so that a stuck mutation does not blow the time budget.
+WAIT_FIRST = 30.0
+WAIT_LATER = 5.0
+STALLS = [0]
+
+
+def bound(nominal: float) -> float:
+    return max(nominal, WAIT_FIRST if STALLS[0] == 0 else WAIT_LATER)
+
+
+def wait_until(pred, timeout: float, step: float = 0.0005, must: bool = True) -> bool:
+    """`must=True`: the condition is expected to come true, `timeout` is the nominal bound (see `bound`).  `must=False`: an optional wait of
+    exactly `timeout` seconds whose expiry is not read as a failure."""
+    limit = bound(timeout) if must else timeout
+    end = time.monotonic() + limit
+    spins = 0
     while True:
         if pred():
             return True
         if time.monotonic() >= end:
+            if must:
+                STALLS[0] += 1
             return False
-        time.sleep(step)
+        spins += 1
+        time.sleep(0 if spins < 50 else step)
+
+
+def wait_event(ev, timeout: float) -> bool:
+    """`threading.Event.wait` with the load-proof bound"""
+    ok = ev.wait(bound(timeout))
+    if not ok:
+        STALLS[0] += 1
+    return ok
 
 
 def partitions_random(rng: hlib.Rng, n: int, pieces: int) -> list[int]:
